@@ -226,9 +226,8 @@ int Group__intersection(struct Group* self, struct Group* group2, struct Group**
     __CPROVER_assigns(NEW_FRAME)
     __CPROVER_ensures(__CPROVER_return_value == SUCCESS && vf_exc == 0)
     __CPROVER_ensures(SEL_POST(self, INTER_KEEP)) /*@ intersection_is_common_members_in_first_group_order */;
-/* the code walks group2 and keeps its members that are in this group */
-#define INTER_KEEP2(j) (RANKOF(self, PID(group2, j)) != UNDEF)
-#define VF_LOOP_Group__intersection_0 SEL_LOOP(group2, INTER_KEEP2, ranks2)
+/* the loop walks this group and keeps its members that are in group2 */
+#define VF_LOOP_Group__intersection_0 SEL_LOOP(self, INTER_KEEP, ranks)
 
 /* excl(map): members whose flag is false, in the original order; the map must have one flag per member */
 #define EXM_KEEP(j) (!excl_map->d[j])
